@@ -251,6 +251,17 @@ def check(prop, tier, seed, runs=None, nops=None, workers=None, opts=None):
         else:
             known_lines.append(f"NOTE: property={prop} known finding {f['id']} no longer reproduces from its witness "
                                f"({res.get('ended')})")
+    # fixed findings suppress nothing: their witnesses are replayed as regression histories
+    from concurrent.futures import ThreadPoolExecutor
+    fixed = [f for f in findings if f.get("status") == "fixed" and f.get("witness")]
+    regressions_replayed = len(fixed)
+    with ThreadPoolExecutor(max_workers=8) as ex:
+        outs = list(ex.map(lambda f: run_replay_file(prop, os.path.join(ROOT, f["witness"])), fixed))
+    for f, res in zip(fixed, outs):
+        if res.get("violation") is not None:
+            reported.append((os.path.join(ROOT, f["witness"]), res["violation"]))
+        elif res.get("harness_error"):
+            problems.append(f"regression replay {f['id']}: {res['harness_error'][-800:]}")
     wall = time.time() - t0
     n_unknown_classes = len(unknown)
     evidence = {
@@ -276,6 +287,7 @@ def check(prop, tier, seed, runs=None, nops=None, workers=None, opts=None):
                                if not k.startswith(("op:", "status:", "fault:")) and k != "ops"},
             "violation_classes_unknown": n_unknown_classes,
             "known_finding_hits": dict(known_hits),
+            "fixed_finding_witnesses_replayed": regressions_replayed,
             "simulated_time": "n/a - the system under test reads no clock",
             "components_real": "all of efootprint (imported from the /repo working tree), pint, pandas, boaviztapi, ecologits",
             "components_stubbed": "uuid.uuid4 as seen by modeling_object/graph_tools (keyed ids); logger silenced; "
